@@ -22,14 +22,24 @@ var supportedIgnoreTypes = map[string]bool{
 }
 
 type ignore struct {
-	ignoreNextLine ignoredRules
-	ignoreThisLine ignoredRules
+	// next-line and this-line ignores belong to a statement. Statements nest (a statement
+	// inside an ignored if statement may have its own directive), so these are stacks:
+	// leaving the inner statement must not end the ignore of the outer one.
+	ignoreNextLine []ignoredRules
+	ignoreThisLine []ignoredRules
 	ignoreRange    ignoredRules
 }
 
 type ignoredRules struct {
 	all   bool
 	rules map[Rule]bool
+}
+
+// newIgnoredRules creates the ignored rules of a single directive
+func newIgnoredRules(rules []Rule) ignoredRules {
+	var ir ignoredRules
+	ignoreRules(&ir, rules)
+	return ir
 }
 
 func ignoreRules(ignoredRules *ignoredRules, rules []Rule) {
@@ -99,7 +109,7 @@ func (i *ignore) SetupStatement(meta *ast.Meta) {
 	for _, c := range meta.Leading {
 		switch ignoreType, rules := parseIgnoreComment(c.String()); ignoreType {
 		case falcoIgnoreNextLine:
-			ignoreRules(&i.ignoreNextLine, rules)
+			i.ignoreNextLine = append(i.ignoreNextLine, newIgnoredRules(rules))
 		case falcoIgnoreStart:
 			ignoreRules(&i.ignoreRange, rules)
 		case falcoIgnoreEnd:
@@ -111,7 +121,7 @@ func (i *ignore) SetupStatement(meta *ast.Meta) {
 	for _, c := range meta.Trailing {
 		ignoreType, rules := parseIgnoreComment(c.String())
 		if ignoreType == falcoIgnoreThisLine {
-			ignoreRules(&i.ignoreThisLine, rules)
+			i.ignoreThisLine = append(i.ignoreThisLine, newIgnoredRules(rules))
 		}
 	}
 }
@@ -119,18 +129,24 @@ func (i *ignore) SetupStatement(meta *ast.Meta) {
 // Clean up common statements, declarations
 func (i *ignore) TeardownStatement(meta *ast.Meta) {
 	for _, c := range meta.Leading {
-		ignoreType, rules := parseIgnoreComment(c.String())
-		if ignoreType == falcoIgnoreNextLine {
-			unignoreRules(&i.ignoreNextLine, rules)
+		if ignoreType, _ := parseIgnoreComment(c.String()); ignoreType == falcoIgnoreNextLine {
+			i.ignoreNextLine = pop(i.ignoreNextLine)
 		}
 	}
 
 	for _, c := range meta.Trailing {
-		ignoreType, rules := parseIgnoreComment(c.String())
-		if ignoreType == falcoIgnoreThisLine {
-			unignoreRules(&i.ignoreThisLine, rules)
+		if ignoreType, _ := parseIgnoreComment(c.String()); ignoreType == falcoIgnoreThisLine {
+			i.ignoreThisLine = pop(i.ignoreThisLine)
 		}
 	}
+}
+
+// pop removes the ignored rules that have been pushed last
+func pop(stack []ignoredRules) []ignoredRules {
+	if len(stack) == 0 {
+		return stack
+	}
+	return stack[:len(stack)-1]
 }
 
 // Block statement is special, the comment placing is following:
@@ -148,7 +164,7 @@ func (i *ignore) SetupBlockStatement(meta *ast.Meta) {
 	for _, c := range meta.Leading {
 		switch ignoreType, rules := parseIgnoreComment(c.String()); ignoreType {
 		case falcoIgnoreNextLine:
-			ignoreRules(&i.ignoreNextLine, rules)
+			i.ignoreNextLine = append(i.ignoreNextLine, newIgnoredRules(rules))
 		case falcoIgnoreStart:
 			ignoreRules(&i.ignoreRange, rules)
 		case falcoIgnoreEnd:
@@ -158,9 +174,8 @@ func (i *ignore) SetupBlockStatement(meta *ast.Meta) {
 }
 func (i *ignore) TeardownBlockStatement(meta *ast.Meta) {
 	for _, c := range meta.Leading {
-		ignoreType, rules := parseIgnoreComment(c.String())
-		if ignoreType == falcoIgnoreNextLine {
-			unignoreRules(&i.ignoreNextLine, rules)
+		if ignoreType, _ := parseIgnoreComment(c.String()); ignoreType == falcoIgnoreNextLine {
+			i.ignoreNextLine = pop(i.ignoreNextLine)
 		}
 	}
 
@@ -174,20 +189,22 @@ func (i *ignore) TeardownBlockStatement(meta *ast.Meta) {
 	}
 
 	for _, c := range meta.Trailing {
-		switch ignoreType, rules := parseIgnoreComment(c.String()); ignoreType {
-		case falcoIgnoreThisLine:
-			unignoreRules(&i.ignoreThisLine, rules)
-		case falcoIgnoreEnd:
+		if ignoreType, rules := parseIgnoreComment(c.String()); ignoreType == falcoIgnoreEnd {
 			unignoreRules(&i.ignoreRange, rules)
 		}
 	}
 }
 
 func (i *ignore) IsEnable(rule Rule) bool {
-	return i.ignoreNextLine.all ||
-		i.ignoreThisLine.all ||
-		i.ignoreRange.all ||
-		i.ignoreNextLine.rules[rule] ||
-		i.ignoreThisLine.rules[rule] ||
-		i.ignoreRange.rules[rule]
+	for _, ir := range i.ignoreNextLine {
+		if ir.all || ir.rules[rule] {
+			return true
+		}
+	}
+	for _, ir := range i.ignoreThisLine {
+		if ir.all || ir.rules[rule] {
+			return true
+		}
+	}
+	return i.ignoreRange.all || i.ignoreRange.rules[rule]
 }
